@@ -669,7 +669,16 @@ class Gen:
             return f"(.not. {self.log_expr(depth - 1)})"
         opr = {"and": ".and.", "or": ".or.", "eqv":
                self.pick([".eqv.", ".neqv."])}[kind]
-        return f"({self.log_expr(depth - 1)} {opr} {self.log_expr(depth - 1)})"
+        left = self.log_expr(depth - 1)
+        if kind != "eqv" and self.flip(1, 3):
+            # the lowest-precedence operators as an operand of .and./.or.
+            right = (f"({self.log_expr(0)} {self.pick(['.eqv.', '.neqv.'])} "
+                     f"{self.log_expr(0)})")
+            if self.flip():
+                left, right = right, left
+        else:
+            right = self.log_expr(depth - 1)
+        return f"({left} {opr} {right})"
 
     # ---- array sections -------------------------------------------------
     def section(self, arr, shape):
